@@ -52,6 +52,20 @@ Theorem ids_exceed_published : forall acts,
 Proof. intros acts. rewrite trace_accepted. split; intros []. Qed.
 Print Assumptions ids_exceed_published.
 
+(* "published (persisted, used for recovery, announced for retention) only after ...": a checkpoint whose snapshot
+   file could not be written is not published at all - in every state, when the write of a completed checkpoint
+   fails the result is RAckFailed with no removal and no notification, and files, completedSnapshots (the recovery
+   checkpoint), savepoint artifacts and the id counter are unchanged.  (Histories with failing writes are part of
+   every theorem above: AFailNextWrite is an action, and the monitor's code 18 rejects any other outcome.) *)
+Theorem failed_write_publishes_nothing : forall w p,
+  is_complete p = true -> w_failw w = true ->
+  let (w', r) := finish_if_complete w p in
+  r = RAckFailed false [] [] (cur_of w) /\
+  w_files w' = w_files w /\ completed (w_store w') = completed (w_store w) /\ w_sps w' = w_sps w /\
+  ckpt_id (w_store w') = ckpt_id (w_store w) /\ pend (w_store w') = None.
+Proof. exact failed_write_inert_lemma. Qed.
+Print Assumptions failed_write_publishes_nothing.
+
 (* the stronger reading of "ids grow across restarts" (no id is ever handed out twice) does not hold:
    an id handed out but never published is handed out again after a restart *)
 Theorem ids_handed_out_refuted :
@@ -76,6 +90,13 @@ Proof. eexists. vm_compute. do 6 right. left. reflexivity. Qed.
 Example monitor_rejects_missing_entry :
   mon_run mon_init [(ACreate [1;2] [1], RCreate false 1); (AAckSr 1 1 [5], RAck false None);
                     (AAckOp 1 1 1, RAck false (Some (MkPub (MkSnap 1 [(1,1,1)] [5]) [] [] false)))] = [12].
+Proof. vm_compute. reflexivity. Qed.
+Example failed_write_history :
+  run repaired init [ACreate [1] [1]; AAckOp 1 1 1; AAckSr 1 1 [7]; AFailNextWrite; ACreate [1] [1]; AAckOp 2 1 2; AAckSr 2 1 [8];
+                     ACreate [1] [1]; ARestart]
+  = [RCreate false 1; RAck false None; RAck false (Some (MkPub (MkSnap 1 [(1, 1, 1)] [7]) [] [] false)); RFault;
+     RCreate false 2; RAck false None; RAckFailed false [] [] (Some 1); RCreate false 3;
+     RRestart [1] (Some (MkSnap 1 [(1, 1, 1)] [7]))].
 Proof. vm_compute. reflexivity. Qed.
 Example bad_ack_satisfiable : bad_ack (final repaired init [ACreate [1] [1]]) (AAckOp 1 9 0).
 Proof. vm_compute. right. discriminate. Qed.
